@@ -14,7 +14,7 @@ use serde::{Deserialize, Serialize};
 // ---------------------------------------------------------------------------------
 // event strategies
 
-fn deco() -> BoxedStrategy<Deco> {
+pub fn deco() -> BoxedStrategy<Deco> {
     (any::<u8>(), any::<bool>(), 0u8..3, any::<bool>())
         .prop_map(|(reason, reason_string, user_props, short)| Deco {
             reason,
@@ -37,7 +37,7 @@ fn deco_ok() -> BoxedStrategy<Deco> {
         .boxed()
 }
 
-fn sel() -> BoxedStrategy<u16> {
+pub fn sel() -> BoxedStrategy<u16> {
     prop_oneof![2 => Just(0u16), 2 => Just(65535u16), 3 => any::<u16>()].boxed()
 }
 
@@ -93,7 +93,7 @@ fn scenario(rm: BoxedStrategy<Option<u16>>, ev: BoxedStrategy<Ev>, len: std::ops
         .boxed()
 }
 
-fn failure_for(out: &SimOut, prefixes: &[&str]) -> Option<Failure> {
+pub fn failure_for(out: &SimOut, prefixes: &[&str]) -> Option<Failure> {
     out.failures
         .iter()
         .find(|f| {
@@ -996,6 +996,7 @@ impl Property for C16 {
                         write: wp.clone(),
                         drain_streams: false,
                         check_sweep_noop: di == 3,
+                        ..Default::default()
                     };
                     let scn = if di == 2 { &with_spurious } else { &base };
                     let out = run(scn, &cfg);
